@@ -484,6 +484,29 @@ Qed.
 
 Definition empty_peer : peer := {| k_prev := None; k_cur := None; k_next := None |}.
 
+(* clear_peers: positions in rm are emptied, the others are unchanged *)
+Lemma in_clear_peers rm q : forall ps i, In q (clear_peers ps rm i) -> q = empty_peer \/ In q ps.
+Proof.
+  induction ps as [|h t IH]; intros i H; cbn [clear_peers In] in H; [destruct H|].
+  destruct H as [H|H].
+  - destruct (existsb (N.eqb i) rm); [left; symmetry; exact H|right; left; exact H].
+  - apply IH in H. destruct H; [left|right; right]; assumption.
+Qed.
+
+Lemma succ_pos i m : i + 1 + N.of_nat m = i + N.of_nat (S m).
+Proof. lia. Qed.
+
+Lemma nth_clear_peers rm : forall ps i n q,
+  nth_error (clear_peers ps rm i) n = Some q ->
+  exists p, nth_error ps n = Some p /\
+            q = if existsb (N.eqb (i + N.of_nat n)) rm then empty_peer else p.
+Proof.
+  induction ps as [|h t IH]; intros i [|n] q H; cbn [clear_peers nth_error] in H; try discriminate.
+  - exists h. split; [reflexivity|]. cbn [N.of_nat]. rewrite N.add_0_r. inversion H; reflexivity.
+  - apply IH in H. destruct H as (p & Hn & Eq). exists p. split; [exact Hn|].
+    rewrite succ_pos in Eq. exact Eq.
+Qed.
+
 (* tun.Write failing: same state evolution as Dgrams, writes stripped *)
 Definition strip (r : res) : res := {| r_write := None; r_rx := r_rx r |}.
 
@@ -496,8 +519,8 @@ Proof. cbn [step]. destruct (run recv1 st l). reflexivity. Qed.
 Theorem inv_preserved : forall key ctr st ev,
   Inv key ctr st -> fresh_keys key [ev] -> Inv key ctr (fst (step st ev)).
 Proof.
-  intros key ctr st ev HI Hfr. destruct ev as [p idx k0|p idx k0| |p|p ns|l|l];
-    [| | | | | |rewrite tunfail_fst; change (fst (run recv1 st l)) with (final recv1 st l);
+  intros key ctr st ev HI Hfr. destruct ev as [p idx k0|p idx k0| |tbl rm|p|p ns|l|l];
+    [| | | | | | |rewrite tunfail_fst; change (fst (run recv1 st l)) with (final recv1 st l);
                apply (final_inv recv1 (Inv key ctr)); [intros s o Hs; apply inv_recv1; exact Hs|exact HI]];
     cbn [step].
   - assert (Hne : k0 <> key) by (apply (Hfr p idx k0); left; left; reflexivity).
@@ -525,6 +548,10 @@ Proof.
   - unfold Inv. cbn [fst s_peers]. intros q Hin s2 k1 Hslot Hk1.
     apply in_map_iff in Hin. destruct Hin as (x & Eq & _). subst q.
     destruct s2; discriminate.
+  - unfold Inv. cbn [fst s_peers]. intros q Hin s2 k1 Hslot Hk1.
+    apply in_clear_peers in Hin. destruct Hin as [Hq|Hq].
+    + subst q. destruct s2; discriminate.
+    + exact (HI q Hq s2 k1 Hslot Hk1).
   - unfold Inv. cbn [fst s_peers].
     destruct (nth_error (s_peers st) (N.to_nat p)) as [x|] eqn:Hn; [|exact HI].
     intros q Hin s2 k1 Hslot Hk1. apply in_set_nth in Hin. destruct Hin as [Hq|Hq].
@@ -640,12 +667,14 @@ Lemma all_empty_step st ev :
   AllEmpty st -> (forall p i k, ev <> Handshake p i k /\ ev <> HandshakeUnconf p i k) ->
   AllEmpty (fst (step st ev)).
 Proof.
-  intros HE Hne. destruct ev as [p idx k0|p idx k0| |p|p ns|l|l];
-    [| | | | | |rewrite tunfail_fst; change (fst (run recv1 st l)) with (final recv1 st l);
+  intros HE Hne. destruct ev as [p idx k0|p idx k0| |tbl rm|p|p ns|l|l];
+    [| | | | | | |rewrite tunfail_fst; change (fst (run recv1 st l)) with (final recv1 st l);
                apply (final_inv recv1 AllEmpty); [intros s o Hs; rewrite (recv1_all_empty s o Hs); exact Hs|exact HE]].
   - exfalso. apply (proj1 (Hne p idx k0)). reflexivity.
   - exfalso. apply (proj2 (Hne p idx k0)). reflexivity.
   - apply restart_all_empty.
+  - unfold AllEmpty. cbn [step fst s_peers]. intros q Hin.
+    apply in_clear_peers in Hin. destruct Hin as [Hq|Hq]; [exact Hq|exact (HE q Hq)].
   - unfold AllEmpty. cbn [step fst s_peers].
     destruct (nth_error (s_peers st) (N.to_nat p)) as [x|] eqn:Hn; [|exact HE].
     intros q Hin. apply in_set_nth in Hin. destruct Hin as [Hq|Hq]; [exact Hq|exact (HE q Hq)].
@@ -809,8 +838,8 @@ Theorem gone_inv_step : forall p st ev,
   forall r i w, In r (snd (step st ev)) -> r_write r = Some (i, w) -> i <> p.
 Proof.
   intros p st ev HG.
-  destruct ev as [p0 idx k0|p0 idx k0| |p0|p0 ns|l|l];
-    [| | | | | |rewrite tunfail_fst, tunfail_snd; split; [apply gone_run; exact HG|];
+  destruct ev as [p0 idx k0|p0 idx k0| |tbl rm|p0|p0 ns|l|l];
+    [| | | | | | |rewrite tunfail_fst, tunfail_snd; split; [apply gone_run; exact HG|];
                intros r i w Hin Hw; apply in_map_iff in Hin; destruct Hin as (r0 & E & _);
                subst r; discriminate];
     cbn [step];
@@ -831,6 +860,10 @@ Proof.
     split; [unfold is_gone in *; cbn [s_gone]; exact Hg|]. cbn [s_peers].
     intros q Hq. apply nth_error_In in Hq. apply in_map_iff in Hq. destruct Hq as (x & E & _).
     subst q. cbn. repeat split.
+  - cbn [fst snd]. split; [|intros r i w []]. split.
+    + unfold is_gone in *. cbn [s_gone]. rewrite existsb_app, Hg. apply Bool.orb_true_r.
+    + cbn [s_peers]. intros q Hq. apply nth_clear_peers in Hq. destruct Hq as (x & Hn & Eq).
+      subst q. destruct (existsb _ rm); [exact no_keys_empty|exact (HE x Hn)].
   - cbn [fst snd]. split; [|intros r i w []]. split.
     + unfold is_gone in *. cbn [s_gone existsb]. rewrite Hg. apply Bool.orb_true_r.
     + cbn [s_peers]. destruct (nth_error (s_peers st) (N.to_nat p0)); [|exact HE].
@@ -877,4 +910,27 @@ Proof.
   intros st l. rewrite tunfail_fst, tunfail_snd. cbn [step]. split; [reflexivity|]. split.
   - intros r Hin. apply in_map_iff in Hin. destruct Hin as (r0 & E & _). subst r. reflexivity.
   - rewrite map_map. apply map_ext. intros r. reflexivity.
+Qed.
+
+(* ------------------------------------------------------------------ reconfiguration *)
+
+Lemma existsb_eqb_in p l : In p l -> existsb (N.eqb p) l = true.
+Proof.
+  intros H. apply existsb_exists. exists p. split; [exact H|apply N.eqb_refl].
+Qed.
+
+Theorem reconf_removes : forall st tbl rm p,
+  In p rm ->
+  is_gone (fst (step st (Reconf tbl rm))) p = true /\
+  (forall e, In e (s_tbl (fst (step st (Reconf tbl rm)))) -> e_owner e <> p) /\
+  (forall q, nth_error (s_peers (fst (step st (Reconf tbl rm)))) (N.to_nat p) = Some q ->
+             k_prev q = None /\ k_cur q = None /\ k_next q = None).
+Proof.
+  intros st tbl rm p Hin. cbn [step fst]. split; [|split].
+  - unfold is_gone. cbn [s_gone]. rewrite existsb_app, (existsb_eqb_in p rm Hin). reflexivity.
+  - cbn [s_tbl]. intros e He. apply filter_In in He. destruct He as [_ Hb].
+    apply Bool.negb_true_iff in Hb. intros E. rewrite E in Hb.
+    rewrite existsb_app, (existsb_eqb_in p rm Hin) in Hb. discriminate.
+  - cbn [s_peers]. intros q Hq. apply nth_clear_peers in Hq. destruct Hq as (x & _ & Eq).
+    rewrite N.add_0_l, N2Nat.id, (existsb_eqb_in p rm Hin) in Eq. subst q. cbn. repeat split.
 Qed.
